@@ -1,11 +1,11 @@
 /-
-The region arithmetic the CODE defines (Gen/Trans.lean, regenerated from
+The region arithmetic the CODE defines (Gen/TransImport.lean, regenerated from
 chainimport/headers_import.go and utils.go on every run) is the model's `Import.regions`.
 -/
-import Neutrino.Gen.Trans
+import Neutrino.Gen.TransImport
 import Neutrino.Model.Import
 namespace Neutrino.Import
-open Neutrino.Gen.Trans Neutrino.GoInt
+open Neutrino.Gen.TransImport Neutrino.GoInt
 
 /-- `verifyMode` values as the model's `Verify` (named through the regenerated constants, so that
 renumbering the Go `const` block is harmless) -/
